@@ -521,6 +521,21 @@ func (c *Ctx) ruleDispatcherLoop(rule string) {
 		return true
 	})
 	c.Rep.check(outer, rule, R.DispLoop.Short(), "dispatcher does not range over its signal channel", c.P.pos(R.DispLoop.Body), "outer loop ranges over the signal channel", "the dispatcher goroutine must range over its signal channel (so that it ends when the channel is closed and wakes on every notify)")
+	// the signal is a one-slot coalescing wake-up: it may be consumed only by that range. Any other receive
+	// (e.g. "drop the stale wake-up" after a pass) can swallow a notify that arrived after the last look at the queue.
+	extra := 0
+	ast.Inspect(R.DispLoop.Body, func(x ast.Node) bool {
+		if u, ok := x.(*ast.UnaryExpr); ok && u.Op == token.ARROW {
+			if _, isChan := R.DispLoop.Info().TypeOf(u.X).Underlying().(*types.Chan); isChan {
+				extra++
+				c.Rep.fail(rule, R.DispLoop.Short(), "extra receive in the dispatcher goroutine", c.P.pos(u), "the dispatcher goroutine receives from a channel outside its range loop: a wake-up consumed there is lost (jobs stay pending with free capacity until some other event)")
+			}
+		}
+		return true
+	})
+	if extra == 0 {
+		c.Rep.ok(rule, R.DispLoop.Short()+": the signal is consumed only by the range loop", c.P.pos(R.DispLoop.Body), "no other receive in the goroutine", true)
+	}
 }
 
 func (c *Ctx) ruleNodeKeptOrRetired(rule string) {
